@@ -189,7 +189,7 @@ class UrwidImage(urwid.Widget):
         If set, any exception raised during rendering is **suppressed** and the
         placeholder is rendered in place of the image.
         """
-        if not isinstance(widget, urwid.Widget):
+        if not (widget is None or isinstance(widget, urwid.Widget)):
             raise arg_type_error("widget", widget)
 
         cls._ti_error_placeholder = widget
